@@ -1244,6 +1244,9 @@ func runC08(r *Run) {
 			r.Evaluations += 2
 			if k1 != k2 {
 				r.Violate("hidden-field-changes-filter", fe, map[string]interface{}{"expression": fe, "tag": tag, "list_a": describe(l1), "list_b": describe(l2)}, k1+" vs "+k2)
+			} else if t1, t2 := filterErrText(flt, l1), filterErrText(flt, l2); t1 != t2 {
+				// lists are walked in order: the first error is the same element's in both, and its text must not show what is hidden
+				r.Violate("hidden-field-in-error-text", "filter|"+fe, map[string]interface{}{"expression": fe, "tag": tag, "list_a": describe(l1), "list_b": describe(l2)}, truncate(t1, 200)+" vs "+truncate(t2, 200))
 			}
 			k1, k2 = filterKept(flt, m1), filterKept(flt, m2)
 			if k1 != k2 {
@@ -1343,6 +1346,19 @@ func runC08(r *Run) {
 }
 
 // filterKept renders which positions / keys Execute keeps (or "err").
+// filterErrText is the text of the error Execute returns (addresses blanked), "" when there is none.
+func filterErrText(f *bexpr.Filter, data interface{}) (out string) {
+	defer func() {
+		if p := recover(); p != nil {
+			out = "panic"
+		}
+	}()
+	if _, err := f.Execute(data); err != nil {
+		return addrRe.ReplaceAllString(err.Error(), "0xADDR")
+	}
+	return ""
+}
+
 func filterKept(f *bexpr.Filter, data interface{}) (out string) {
 	enter("Execute", "(a filter)", data)
 	defer leave()
